@@ -7,6 +7,7 @@ import (
 	"go/ast"
 	"go/token"
 	"go/types"
+	"sort"
 	"strings"
 
 	"golang.org/x/tools/go/packages"
@@ -114,6 +115,23 @@ func (c *canonizer) node(n ast.Node) {
 			}
 			c.b.WriteString("bin" + x.Op.String() + " (")
 			return true
+		case *ast.SwitchStmt:
+			// clauses over distinct constants (no fallthrough) in a canonical order
+			if cl := orderedClauses(c.p, x.Body, x.Tag != nil); cl != nil {
+				c.b.WriteString("SwitchStmt (")
+				if x.Init != nil {
+					c.node(x.Init)
+				}
+				c.node(x.Tag)
+				c.b.WriteString("BlockStmt (")
+				for _, s := range cl {
+					c.node(s)
+				}
+				c.b.WriteString(") ) ")
+				return false
+			}
+			c.b.WriteString("SwitchStmt (")
+			return true
 		case *ast.ParenExpr:
 			// parentheses carry no meaning of their own
 			c.node(x.X)
@@ -164,6 +182,19 @@ func (c *canonizer) node(n ast.Node) {
 			return false
 		case *ast.TypeSwitchStmt:
 			// implicit per-clause objects: name them through the assign ident
+			if cl := orderedClauses(c.p, x.Body, true); cl != nil {
+				c.b.WriteString("typeswitch (")
+				if x.Init != nil {
+					c.node(x.Init)
+				}
+				c.node(x.Assign)
+				c.b.WriteString("BlockStmt (")
+				for _, s := range cl {
+					c.node(s)
+				}
+				c.b.WriteString(") ) ")
+				return false
+			}
 			c.b.WriteString("typeswitch (")
 			return true
 		case *ast.CallExpr:
@@ -242,4 +273,56 @@ func stripNot(e ast.Expr) (ast.Expr, bool) {
 		neg = !neg
 		e = u.X
 	}
+}
+
+// orderedClauses returns the clauses of a switch in an order that does not
+// depend on how the source lists them - sorted by their case constants / case
+// types, default last - when reordering cannot change the meaning: every case
+// is a constant (no fallthrough anywhere) or a concrete (non-interface) type.
+// Otherwise nil: the source order is part of the meaning.
+func orderedClauses(p *packages.Package, body *ast.BlockStmt, tagged bool) []ast.Stmt {
+	if !tagged || body == nil || len(body.List) < 2 {
+		return nil
+	}
+	type kc struct {
+		key string
+		s   ast.Stmt
+	}
+	var out []kc
+	for _, cl := range body.List {
+		cc, ok := cl.(*ast.CaseClause)
+		if !ok {
+			return nil
+		}
+		// fallthrough can only be the last statement of a clause
+		if n := len(cc.Body); n > 0 {
+			if b, ok := cc.Body[n-1].(*ast.BranchStmt); ok && b.Tok == token.FALLTHROUGH {
+				return nil
+			}
+		}
+		var keys []string
+		for _, e := range cc.List {
+			tv, ok := p.TypesInfo.Types[e]
+			switch {
+			case ok && tv.Value != nil:
+				keys = append(keys, "k:"+tv.Value.ExactString())
+			case ok && tv.IsType() && !types.IsInterface(tv.Type):
+				keys = append(keys, "t:"+types.TypeString(tv.Type, func(*types.Package) string { return "" }))
+			default:
+				return nil
+			}
+		}
+		sort.Strings(keys)
+		k := strings.Join(keys, ",")
+		if cc.List == nil {
+			k = "~default"
+		}
+		out = append(out, kc{k, cl})
+	}
+	sort.SliceStable(out, func(i, j int) bool { return out[i].key < out[j].key })
+	res := make([]ast.Stmt, len(out))
+	for i, o := range out {
+		res[i] = o.s
+	}
+	return res
 }
